@@ -10,7 +10,15 @@ import (
 )
 
 func init() {
-	Register(&PropDef{ID: "C11", Run: runC11, Config: seqConfig})
+	Register(&PropDef{ID: "C11", Run: func(c *Ctx) {
+		if isLinRun(c.Spec.GenSeed) {
+			// concurrent histories in two or three realms of one router at once, each
+			// checked for linearizability against its own model
+			runLinRealms(c, linFlavour(c.Gen.Intn(3)), c.Gen.Range(2, 3))
+			return
+		}
+		runC11(c)
+	}, Config: seqOrLinConfig})
 }
 
 // runC11: the same scenario is run in lock-step in two or three realms with
